@@ -8,7 +8,7 @@
    chain is the checker's context, which is where the next statement's conditions are stated. *)
 From Coq Require Import List String NArith ZArith Bool Arith Lia.
 From EvyV Require Import Base FmtAst Format FormatProofs Pratt PrattProofs Parser ParserProofs ParserRules ParserScope
-  FormatParse FormatParseProofs FormatParseListProofs FormatParseStmtProofs.
+  FormatParse FormatParseProofs FormatParseListProofs FormatParseStmtProofs FormatParseTargetProofs.
 From EvyV.Gen Require Import Prec.
 Import ListNotations.
 Local Open Scope nat_scope.
@@ -147,8 +147,10 @@ Section Blocks.
       sok fr G (FmtAst.STypedDecl x t [])
   | sok_decl fr G x v : ident_text x = true -> declare TB false x G <> None -> top_ok (envG G) v ->
       sok fr G (FmtAst.SInferredDecl x v [])
-  | sok_assign fr G x v : ident_text x = true -> mem_str x (map fst F) = false -> cvisible x G = true -> top_ok (envG G) v ->
-      sok fr G (FmtAst.SAssign (FVar x) v [])
+  | sok_assign fr G t x steps v : tgt_split t = Some (x, steps) ->
+      ident_text x = true -> mem_str x (map fst F) = false -> cvisible x G = true ->
+      Forall (step_ok (envG G)) steps -> top_ok (envG G) v ->
+      sok fr G (FmtAst.SAssign t v [])
   | sok_call fr G n args fi : ident_text n = true -> lookup_fn n F = Some fi ->
       arity_wrong (envG G) n (List.length args) = false -> Forall (item_ok (envG G) true) args ->
       sok fr G (FmtAst.SCall n args [])
@@ -278,22 +280,23 @@ Section Blocks.
     destruct HST as (_ & Hp & _). unfold peek_ok in Hp. rewrite Hp. reflexivity.
   Qed.
 
-  Lemma P_assign fr G x v : ident_text x = true -> mem_str x (map fst F) = false -> cvisible x G = true -> top_ok (envG G) v ->
-    P_sok fr G (FmtAst.SAssign (FVar x) v []).
+  Lemma P_assign fr G t x steps v : tgt_split t = Some (x, steps) ->
+    ident_text x = true -> mem_str x (map fst F) = false -> cvisible x G = true ->
+    Forall (step_ok (envG G)) steps -> top_ok (envG G) v ->
+    P_sok fr G (FmtAst.SAssign t v []).
   Proof.
-    intros Hx Hnf Hvis Hv lvl f s r Hf HST Hn. destruct f as [|f]; [cbn in Hf; lia|].
+    intros Hsp Hx Hnf Hvis Hst Hv lvl f s r Hf HST Hn. destruct f as [|f]; [cbn in Hf; lia|].
     pose proof HST as (Hat & Hpk & N & U & A & Fr & Fn).
-    rewrite <- (ST_env _ _ _ _ HST) in Hv.
+    rewrite <- (ST_env _ _ _ _ HST) in Hv, Hst.
     assert (H1 : is_func x s = false) by (rewrite (is_func_F s x Fn); exact Hnf).
     assert (H2 : scope_get x s = true) by (rewrite scope_get_abs, A; exact Hvis).
-    destruct (assign_var_roundtrip B BT fx lvl s x v r [] Hx H1 H2 Hv Hat Hn) as (s' & P & A1 & P1).
-    exists s'. split; [|split; assumption]. cbn [stmt_tree fexpr_tree]. rewrite <- P.
-    cbn [fmt_stmt fmt_expr] in HST.
-    change ([T x] ++ [Sp; T k_assign; Sp] ++ fmt_expr fx lvl v ++ write_comment []) with ([T x; Sp; T k_assign; Sp] ++ fmt_expr fx lvl v ++ write_comment []) in HST.
-    rewrite toks_app in HST. cbn [toks_of_pieces flat_map tok_of_piece app] in HST. rewrite (ident_text_spec x Hx) in HST.
-    change (tok_of_text k_assign) with (mk T_ASSIGN) in HST.
-    cbn [parse_statement]. unfold parse_statement_body. rewrite (ST_ct _ _ _ _ _ HST). cbn [ident_tok ttype].
-    destruct HST as (_ & Hp & _). unfold peek_ok in Hp. rewrite Hp. reflexivity.
+    destruct (assign_target_roundtrip B BT fx lvl s t x steps v r [] Hsp Hx H1 H2 Hst Hv Hat Hn) as (s' & P & A1 & P1).
+    exists s'. split; [|split; assumption]. cbn [stmt_tree]. rewrite <- P.
+    cbn [fmt_stmt] in HST. rewrite toks_app in HST. rewrite (tgt_toks fx lvl t x steps Hsp), (ident_text_spec x Hx) in HST.
+    cbn [app] in HST. rewrite !tp_cons in HST. cbn [tok_of_piece app] in HST. change (tok_of_text k_assign) with (mk T_ASSIGN) in HST.
+    cbn [parse_statement]. unfold parse_statement_body. cbn [app] in HST. rewrite (ST_ct _ _ _ _ _ HST), (ST_cur _ _ _ _ _ HST). cbn [ident_tok ttype tlit].
+    rewrite H1. destruct HST as (_ & Hp & _). unfold peek_ok in Hp. rewrite Hp. clear Hp.
+    destruct steps as [|[i|k] r0]; cbn [flat_map step_toks app]; reflexivity.
   Qed.
 
   Lemma P_retv fr G v : fr_ret fr = true -> top_ok (envG G) v -> P_sok fr G (FmtAst.SReturn (Some v) []).
@@ -378,7 +381,9 @@ Section Blocks.
 
   Lemma sok_head fr G st lvl : sok fr G st -> exists t0 ts, toks_of_pieces (fmt_stmt fx lvl st) = t0 :: ts /\ start_tok t0.
   Proof.
-    intro H. destruct H; cbn [fmt_stmt fmt_expr fmt_call write_decl app]; cbn [toks_of_pieces flat_map tok_of_piece app];
+    intro H. destruct H;
+      try (cbn [fmt_stmt]; rewrite toks_app, (tgt_toks fx lvl _ _ _ H), (ident_text_spec _ H0); eexists; eexists; (split; [reflexivity|exact I]));
+      cbn [fmt_stmt fmt_expr fmt_call write_decl app]; cbn [toks_of_pieces flat_map tok_of_piece app];
       try rewrite (ident_text_spec _ H); eexists; eexists; (split; [reflexivity|exact I]).
   Qed.
 
